@@ -227,7 +227,7 @@ def run(ctx):
 
     # ---- 3. oracle: qrotate == Rodrigues(-angle), shape preserved ----------------------------------
     tol = 1e-9
-    for i in range(ctx.n(600, 6000)):
+    for i in range(ctx.n(4000, 40000)):
         v, axis, angle, axk, angk = rotation_case(rng)
         key = ("rot", i, v.shape, axk, angk)
         sig = "C14:rot:%s:%s:%s:%d" % ("x".join(map(str, v.shape)), axk, angk, i)
@@ -251,7 +251,7 @@ def run(ctx):
                           {"signature": sig, **describe(v, axis, angle, axk, angk), "impl": np.asarray(r).tolist(),
                            "spec": ref.tolist(), "relative_error": err})
     # corollaries stated by the property, directly on the implementation
-    for i in range(ctx.n(200, 2000)):
+    for i in range(ctx.n(1000, 10000)):
         n = rng.randint(2, 5)
         v = rand_cols(rng, (n,))
         axis = np.array(rand_vec(rng))
@@ -329,7 +329,7 @@ def run(ctx):
             ctx.violation("point is below its subpoint along the outward normal (subpoint on the far side)",
                           {"signature": sig + ":side", **base, "point": p[:, j].tolist(), "subpoint": s[:, j].tolist()})
 
-    for i in range(ctx.n(600, 6000)):          # scalar points (the loop exits on this point's own convergence)
+    for i in range(ctx.n(3000, 30000)):          # scalar points (the loop exits on this point's own convergence)
         lat, lon, h = rand_geodetic()
         p = np.array(geodetic_to_cart(lat, lon, h))
         sig = "C14:geo:%d" % i
@@ -353,7 +353,7 @@ def run(ctx):
         if not abs(float(gl) - lat) * (A + h) <= 1e-3:
             ctx.violation("geodetic_lat is off by more than 1 m at the point",
                           {"signature": sig + ":lat", **base, "point": p.tolist(), "impl": float(gl), "spec": lat})
-    for i in range(ctx.n(60, 600)):            # (3, n) arrays with NaN columns mixed in
+    for i in range(ctx.n(400, 4000)):            # (3, n) arrays with NaN columns mixed in
         n = rng.randint(1, 12)
         geo = [rand_geodetic() for _ in range(n)]
         p = np.array([geodetic_to_cart(*g) for g in geo]).T
